@@ -23,6 +23,8 @@ var queueLinkFields = map[string]bool{"ParentQueue": true}
 
 func runC08(c *Ctx) {
 	runC08AllNodes(c)
+	runC08AmountsThroughFixedPoint(c)
+	runC08PerNodeShareRecomputed(c)
 	borrow(c, "O7", "C13", "O5", "Commit does not call Discard", "undoing already committed allocations fires the deallocate handlers: the queue and its ancestors are under-counted while the pods get bound")
 	borrow(c, "O9", "C13", "O8", "plugin handlers fire after the job and node were updated", "the queue counters are charged with the task's accepted resources, which the node update computes")
 	borrow(c, "O11", "C07", "O7", "createQueueResourceAttrs", "the limit and quota enforced for a resource are the ones configured for that resource")
@@ -580,4 +582,83 @@ func runC08AllNodes(c *Ctx) {
 			"a listed node can be left out of the snapshot ("+pathStr(path)+"): the pods that run on it are added to no node, get no AcceptedResource and count zero in the running sums of their queues, so the limit and quota guards admit workloads beyond them")
 	}
 	c.Floor("O15", "MPT node filings of snapshotNodes", n, 1)
+}
+
+// runC08AmountsThroughFixedPoint (O17): what a GPU request is worth — for the node, for the queue's running sums, for the
+// limit and quota checks — is portion × devices, computed in one place (getExtendedResourceGpus). In the methods of
+// GpuResourceRequirement the portion is compared, copied and reported, but it never enters an addition or a
+// multiplication directly: an amount formed from the bare portion counts a multi-device fraction as one device.
+func runC08AmountsThroughFixedPoint(c *Ctx) {
+	n := 0
+	for _, fn := range c.P.FuncsIn("pkg/scheduler/api/resource_info") {
+		recv := fn.Signature.Recv()
+		if recv == nil || !strings.HasSuffix(typeKey(recv.Type()), "GpuResourceRequirement") {
+			continue
+		}
+		for _, in := range instrsIn(fn, func(in ssa.Instruction) bool {
+			fa, ok := in.(*ssa.FieldAddr)
+			return ok && termOf(fa).lastField() == "portion"
+		}) {
+			fa := in.(*ssa.FieldAddr)
+			for _, r := range *fa.Referrers() {
+				ld, ok := r.(*ssa.UnOp)
+				if !ok {
+					continue
+				}
+				n++
+				var bad ssa.Instruction
+				seen := map[ssa.Value]bool{}
+				var follow func(v ssa.Value)
+				follow = func(v ssa.Value) {
+					if seen[v] || v.Referrers() == nil {
+						return
+					}
+					seen[v] = true
+					for _, u := range *v.Referrers() {
+						switch x := u.(type) {
+						case *ssa.BinOp:
+							switch x.Op {
+							case token.ADD, token.SUB, token.MUL, token.QUO:
+								bad = x
+							}
+						case *ssa.Convert:
+							follow(x)
+						case *ssa.Phi:
+							follow(x)
+						}
+					}
+				}
+				follow(ld)
+				pos := instrPos(in)
+				if bad != nil {
+					pos = instrPos(bad)
+				}
+				c.Check(bad == nil, "O17", "DEP", funcKey(fn)+": the portion enters an amount only through getExtendedResourceGpus", pos, "compared, copied, reported or handed to the fixed-point helper",
+					"the GPU portion is used directly in an arithmetic expression: the amount it forms ignores the device count (a fraction on several devices is charged as one device's portion to the queue while the node's devices are all taken)")
+			}
+		}
+	}
+	c.Floor("O17", "DEP reads of the GPU portion", n, 8)
+}
+
+// runC08PerNodeShareRecomputed (O18): a gpu-memory request is worth a different share of a GPU on every node (it
+// depends on the node's GPU memory), and the per-node capacity predicate is its only guard. The share is computed from
+// the node at hand on every call: every path through IsTaskAllocationOnNodeOverCapacity calls
+// node.GetRequiredInitQuota(task) (a memo per task reuses the first node's share on all others).
+func runC08PerNodeShareRecomputed(c *Ctx) {
+	f := c.Anchor("O18", pkgProportion+"/capacity_policy", "CapacityPolicy", "IsTaskAllocationOnNodeOverCapacity")
+	if f == nil {
+		return
+	}
+	quota := c.P.Func("pkg/scheduler/api/node_info", "NodeInfo", "GetRequiredInitQuota")
+	if quota == nil {
+		c.Undec("O18", "ANCHOR", "NodeInfo.GetRequiredInitQuota", f.Pos(), "not found")
+		return
+	}
+	step := c.P.performs(isCallToFn(quota), 2)
+	n := len(instrsIn(f, step))
+	_, path, found := reachAvoiding([]cfgPos{entryPos(f)}, isReturn, step, nil)
+	c.Check(!found, "O18", "MPT", funcKey(f)+": the requested share is computed from the node at hand on every call", f.Pos(), "every path calls node.GetRequiredInitQuota(task)",
+		"the per-node capacity check can run without computing the task's share on this node ("+pathStr(path)+"), e.g. from a per-task memo: a gpu-memory request is checked with the share it has on the first node it met and bound on a node where it is worth more, past the queue's limit")
+	c.Floor("O18", "MPT share computations of the per-node capacity check", n, 1)
 }
